@@ -88,6 +88,18 @@ FirstBad(names, Bad(_)) ==
     THEN names[CHOOSE i \in 1..Len(names) : Bad(names[i]) /\ \A j \in 1..(i - 1) : ~Bad(names[j])]
     ELSE ""
 
+\* further read-only attributes of an accepted IBAN: the number it denotes, the SEPA flag and lengths
+\* of its country's registry entry, the ISO 3166 country it names (none for user-assigned codes like XK)
+IbanInfoVerdict(s, f) ==
+    LET cc == CountryKey(s)
+    IN  IF f.k = "exc" THEN "attribute-raised"
+        ELSE IF f.numeric # NumericText(Rearranged(s)) THEN "numeric-differs"
+        ELSE IF Mod97(f.numeric) # 1 THEN "numeric-not-1-mod-97"
+        ELSE IF f.sepat # "bool" \/ f.sepa # Table[cc].sepa THEN "sepa-flag-differs"
+        ELSE IF f.country # (IF cc \in Iso3166 THEN cc ELSE <<>>) THEN "country-object-differs"
+        ELSE IF f.spec_len # Len(s) \/ f.spec_blen # Len(s) - 4 THEN "spec-length-differs"
+        ELSE "ok"
+
 IbanPartsOutcome(e) ==
     LET s == Clean(e.t)
         o == e.out
@@ -109,6 +121,7 @@ IbanPartsOutcome(e) ==
         ELSE IF o.reparse_fmt # s THEN "formatted-does-not-round-trip"
         ELSE IF o.cls # "IBAN" \/ o.bban_cls # "BBAN" THEN "wrong-class"
         ELSE IF ~e.ai /\ (o.rebuilt # s \/ o.rebuilt_s # s \/ ~o.rebuilt_eq) THEN "from_bban-does-not-rebuild"
+        ELSE IF "info" \in DOMAIN o /\ Valid(Table, e.t) THEN IbanInfoVerdict(s, o.info)
         ELSE "ok"
 
 BicPartsOutcome(e) ==
